@@ -47,3 +47,6 @@ func hasIntervalString(dialect, stmt string) bool {
 	}, t)
 	return found
 }
+
+// TestTableStatements: the SQL strings of Acra's own parser test tables (shared with the tokenizer check of C14).
+func TestTableStatements() []string { return testTableStatements() }
